@@ -90,11 +90,28 @@ macro_rules! forward_display {
         }
     };
 }
+// In bases 2, 8 and 16 Rust prints a negative i64 as its 64-bit two's complement pattern but a
+// negative BigInt as a sign and a magnitude. How an integer is printed must not depend on which
+// representation it happens to be in, so negative small values are printed the way BigInt prints
+// them (which is also what Display does in base 10).
+macro_rules! forward_display_radix {
+    ($impl:ident) => {
+        impl fmt::$impl for NInt {
+            fn fmt(&self, formatter: &mut fmt::Formatter) -> fmt::Result {
+                match self {
+                    NInt::Small(n) if *n < 0 => fmt::$impl::fmt(&BigInt::from(*n), formatter),
+                    NInt::Small(n) => fmt::$impl::fmt(n, formatter),
+                    NInt::Big(n) => fmt::$impl::fmt(n, formatter),
+                }
+            }
+        }
+    };
+}
 forward_display!(Display);
-forward_display!(LowerHex);
-forward_display!(UpperHex);
-forward_display!(Binary);
-forward_display!(Octal);
+forward_display_radix!(LowerHex);
+forward_display_radix!(UpperHex);
+forward_display_radix!(Binary);
+forward_display_radix!(Octal);
 
 macro_rules! impl_binary {
     ($imp:ident, $method:ident, $func:expr) => {
